@@ -329,84 +329,7 @@ mismatch!(c15_mismatch_mae, |x: &Vec<f64>, y: &Vec<f64>| MeanAbsoluteError {}.ge
 // @vp name=c15_mismatch_r2 prop=C15 tier=quick t=300 fns=R2::get_score size=2-vs-3 dom=labels{0,1} expect=panic
 mismatch!(c15_mismatch_r2, |x: &Vec<f64>, y: &Vec<f64>| R2 {}.get_score(x, y), "C15:r2-mismatch-not-rejected");
 
-// ---------------------------------------------------------------------------------------------
-// mutual information of a contingency table (the HashMap-free kernel of homogeneity / completeness / V-measure):
-// with `ln` replaced by the identity surrogate L the function must return
-//   max(0, sum_ij (n_ij/N) * (L(n_ij) - L(N) - L(a_i*b_j) + L(sum a) + L(sum b)))   over ALL non-zero cells,
-// which pins down the loop bounds, the row/column marginals and the cell <-> marginal pairing.
-// Natively (replay) the real value sum (n_ij/N) ln(N n_ij/(a_i b_j)) is checked.
-// ---------------------------------------------------------------------------------------------
-pub fn ln_identity(x: f64) -> f64 {
-    x
-}
-macro_rules! mutual_info {
-    ($name:ident, $r:expr, $c:expr, $unw:expr) => {
-        #[cfg_attr(kani, kani::proof)]
-        #[cfg_attr(kani, kani::unwind($unw))]
-        #[cfg_attr(kani, kani::stub(f64::ln, crate::c15_metrics::ln_identity))]
-        pub fn $name() {
-            const R: usize = $r;
-            const C: usize = $c;
-            let mut n = [[0usize; C]; R];
-            let mut tot = 0usize;
-            for i in 0..R {
-                for j in 0..C {
-                    n[i][j] = anyu(0, 4);
-                    tot += n[i][j];
-                }
-            }
-            // total 8 so that n_ij/N is exact; every row and column non-empty (they come from observed labels)
-            kani::assume(tot == 8);
-            let mut a = [0usize; R];
-            let mut b = [0usize; C];
-            for i in 0..R {
-                for j in 0..C {
-                    a[i] += n[i][j];
-                    b[j] += n[i][j];
-                }
-            }
-            for i in 0..R {
-                kani::assume(a[i] > 0);
-            }
-            for j in 0..C {
-                kani::assume(b[j] > 0);
-            }
-            let mut table: Vec<Vec<usize>> = Vec::new();
-            for i in 0..R {
-                table.push(n[i].to_vec());
-            }
-            let mi: f64 = smartcore::verif_hooks::mutual_info_score(&table);
-            if cfg!(vp_playback) {
-                let mut want = 0f64;
-                for i in 0..R {
-                    for j in 0..C {
-                        if n[i][j] > 0 {
-                            let nij = n[i][j] as f64;
-                            want += nij / 8.0 * (8.0 * nij / (a[i] as f64 * b[j] as f64)).ln();
-                        }
-                    }
-                }
-                vp_assert!((mi - want.max(0.0)).abs() <= 1e-9, "C15:mutual-information-definition");
-            } else {
-                // surrogate value, exact in integers: 8 * S = sum n_ij * (n_ij - 8 - a_i b_j + 8 + 8)
-                let mut s8 = 0i32;
-                for i in 0..R {
-                    for j in 0..C {
-                        let nij = n[i][j] as i32;
-                        s8 += nij * (nij + 8 - (a[i] * b[j]) as i32);
-                    }
-                }
-                let want = if s8 > 0 { s8 as f64 / 8.0 } else { 0.0 };
-                vp_assert!(mi == want, "C15:mutual-information-sums-over-all-cells-with-their-marginals");
-            }
-            core::mem::forget(table);
-            vp_reached!();
-        }
-    };
-}
-// @vp name=c15_mutual_info_2x3 prop=C15 tier=quick t=480 fns=mutual_info_score size=contingency-2x3,N=8 dom=counts-symbolic-0..4 stubs=ln_identity
-mutual_info!(c15_mutual_info_2x3, 2, 3, 8);
-// @vp name=c15_mutual_info_3x2 prop=C15 tier=quick t=480 fns=mutual_info_score size=contingency-3x2,N=8 dom=counts-symbolic-0..4 stubs=ln_identity
-mutual_info!(c15_mutual_info_3x2, 3, 2, 8);
-// @vp name=c15_mutual_info_2x2 prop=C15 tier=quick t=480 fns=mutual_info_score size=contingency-2x2,N=8 dom=counts-symbolic-0..4 stubs=ln_identity
-mutual_info!(c15_mutual_info_2x2, 2, 2, 7);
+// NOTE: mutual_info_score (the HashMap-free kernel of the cluster scores) was tried with an identity `ln` surrogate on
+// 2x2 / 2x3 / 3x2 contingency tables with symbolic counts: it collects the non-zero cells into vectors whose length depends
+// on the data, every later loop and allocation then has a symbolic size, and CBMC ran out of memory (14 GB) in under 3 minutes.
+// The cluster-score clause therefore stays outside the claim (DESIGN 6/C15).
